@@ -65,11 +65,11 @@ def run(ctx):
             raise MachineryError('lock-step action %s never taken' % a)
     checked_pools()
     scripts = []
-    n = 800 if quick else 40000
+    n = 800 if quick else 8000
     scripts += splitfam.emit_scripts(ctx, PLAIN, depth, 'C05_emit', simulate=n,
                                      maxlen=30 if quick else 50, minlen=3, seed=ctx.seed * 11 + 3)
     scripts += splitfam.emit_scripts(ctx, ['parensemi'], 3, 'C05_emit_exh', exhaustive_len=5 if quick else 6, softlen=4 if quick else 5)
-    cover = splitfam.cover_scripts(ctx, PLAIN, depth, 'C05_cover', transitions=not quick)
+    cover = splitfam.cover_scripts(ctx, PLAIN, 5, 'C05_cover', transitions=not quick)
     for i, c in enumerate(cover):
         for j in (range(len(splitfam.PROBES)) if not quick else [i]):
             scripts.append({'hist': splitfam.with_probe(c['hist'], j)})
@@ -99,7 +99,7 @@ def run(ctx):
                 ctx.nontrivial(key)
             # metamorphic: replace opaque region bodies; annotation carries over unchanged
             if variant == 1:
-                for vt, rk, span in region_variants(text, rng, 2 if quick else 4):
+                for vt, rk, span in region_variants(text, rng, 2 if quick else 3):
                     tv = splitfam.tok_trace(len(traces), vt, hist)
                     ctx.evals()
                     if tv is None:
